@@ -287,7 +287,9 @@ def timify(rng, machine, plans, data, base_epoch_ms=1700000000000, slow=False):
     """Make a generated case exercise the clock (in place): Tasks get `TimeoutSeconds` and their workers reply delays on
     both sides of the deadline (never exactly on it: which of two timers due at the same instant fires first is not
     the model's business) or never answer; other workers get non-default delays; Wait states take all four forms, the
-    timestamps written in assorted offset notations; `States.Timeout` appears in Retry / Catch lists.
+    timestamps written in assorted offset notations; `States.Timeout` appears in Retry / Catch lists; a quarter of the
+    Tasks with a limit get it through `TimeoutSecondsPath` (integers of either sign, booleans, strings, nothing), some a
+    `HeartbeatSeconds(Path)` (which the engine ignores).
     `slow`: more of all that (the case is to get an execution time limit, `set_time_limit`, which needs a run that
     takes time)."""
     when_ms = base_epoch_ms + rng.choice([0, 500, 1000, 2500, 4000])
@@ -303,6 +305,20 @@ def timify(rng, machine, plans, data, base_epoch_ms=1700000000000, slow=False):
                 if rng.random() < (0.75 if slow else 0.45):
                     tmo = rng.choice([1, 1, 2, 3])
                     st["TimeoutSeconds"] = tmo
+                    if rng.random() < 0.25:
+                        # TimeoutSecondsPath: applied to the state's raw input; wins over TimeoutSeconds; an integer counts,
+                        # true is 1, anything else 0 (the Task times out at once), a path matching nothing is States.Runtime
+                        pth = rng.choice(["$.n", "$.n", "$.a.b", "$.a.b", "$.flag", "$.b", "$.missing", "$$.Execution.Input.n"])
+                        st["TimeoutSecondsPath"] = pth
+                        if rng.random() < 0.5:
+                            del st["TimeoutSeconds"]
+                        v = data
+                        for seg in (pth[2:].split(".") if pth.startswith("$.") else ["n"]):
+                            v = v.get(seg) if isinstance(v, dict) else None
+                        tmo = v if isinstance(v, int) and not isinstance(v, bool) and v > 0 else tmo
+                    if rng.random() < 0.15:
+                        # HeartbeatSeconds(Path): the engine does not implement them — no heartbeat is expected
+                        st[rng.choice(["HeartbeatSeconds", "HeartbeatSecondsPath"])] = rng.choice([1, "$.n"])
                     for key in ("Retry", "Catch"):
                         if key in st and rng.random() < 0.5:
                             rng.choice(st[key])["ErrorEquals"] = rng.choice([["States.Timeout"], ["States.ALL"], ["States.Timeout", "Other"]])
